@@ -34,6 +34,14 @@ CHECKS = {
    text="ApiFrame.tla states the frame condition (Call: env' = env; the call returns; deterministic entry points are functions of env) and is model-checked on small constants; every public entry point (90, table built with inspect) is called twice with the same argument objects and the fingerprint trace <env0,result1,env1,result2,env2> is accepted or rejected by TLC with TraceApiFrame.tla; control traces with one corrupted clause each must be rejected in every batch.",
    note="Trace validation of a frame condition: TLC explores nothing of its own; coverage is by scenario families, not exhaustive over argument values; entry points whose first call raises are noted, not judged.",
    technique="TLA+ frame specification (ApiFrame) + batched TLC trace validation (TraceApiFrame) of recorded double calls"),
+ "C16": dict(level="model_checking", ref="DESIGN.md §5 C16",
+   text="TLC checks, over every history of insert / update(>=0) / remove / update_total_weight / random_removal in the bound (weights 0..3, increments 0..2; <=6 ops on 3 items and <=4 on 4 quick, <=7 on 3 and <=6 on 4 thorough; unweighted class on 4-5 items), that ListDictImpl.tla - a statement-by-statement transcription of _ListDict_, including the drifting max_weight_count and the never-called _update_max_weight - keeps list/position map/weight keys consistent, total = sum of weights, max_weight >= every weight and > 0 when a weight is, its folded rejection-sampling law equal to w[x]/sum w with zero weights unreachable, and refines the reference WeightedBag.tla. The TLC-emitted reference graph is replayed against the real class: every history of the alphabet up to depth 4 (quick) / 5 (thorough) and one shortest history per distinct ListDictImpl state in the deeper bound; after each history len, membership, exact total_weight() and the exact distributions of choose_random() and random_removal() (scripted random source, rejection loop folded, 1e-12) are compared with the emitted state.",
+   note="Bounded (items <=5, small integer/dyadic weights); exhaustive in the stated bounds. Agreement of the real object's private state with the transcription is a NOTE, never a verdict. Trusts TLC and the scripted source's model of random.choice/random.random. The weighted simulator paths themselves are exercised by C01/C02/C03/C15.",
+   technique="TLA+ reference (WeightedBag) and implementation-shaped spec (ListDictImpl) model-checked with TLC (invariants + refinement); TLC-emitted op-graph and state-covering histories replayed against the real _ListDict_ with exact selection-distribution comparison"),
+ "C20": dict(level="model_checking", ref="DESIGN.md §5 C20",
+   text="TLC checks on every pair of ordered report/observation grids over 5 ticks (lengths <=4 quick, <=5 thorough; ties and repeated times), for one, two and three series, that the PlusCal model of subsample's two-pointer scan and of get_time_shift's loop equal their declarative definitions (last observation at or before the report time, final value held; first time the series reaches the threshold), with loop invariants and a termination variant. On every weighted graph on <=4 (thorough <=5) nodes and every ordered degree sequence in the bound plus configuration-model sequences up to degree 8 it checks psi(1)=1, psi'(1)=<k>, psi''(1)=<k^2-k>, coeff(D psi)[k-1]=k*coeff(psi)[k], node-wise = coefficient-wise evaluation, Pnk row sums and symmetry, and the R0 identities in exact rational arithmetic. TLC prints input -> expected output from the definitions; every record is replayed into the real subsample (1-3 series), get_time_shift, get_Pk, get_Pnk, get_PGF/Prime/DPrime at x in {1/4,1/2,3/4,1} and estimate_R0: step values exactly, rationals within 1e-12.",
+   note="Exhaustive only within the stated bounds; series values are all 0/1 vectors plus index-revealing shapes. Trusts TLC and its PlusCal translation. The Pnk row of degree 0, R0 on edgeless graphs, get_time_shift with an unreached threshold and subsample inputs violating report[0] >= times[0] are unconstrained by the property and not judged.",
+   technique="TLA+ specs (Subsample: PlusCal algorithm vs declarative definition; DegreeDist: exact-rational generating-function identities) model-checked with TLC; TLC-emitted input->output records replayed into the real functions"),
 }
 NOT_YET = "check not built yet in this round (planned in DESIGN.md §5); not claimed"
 NA = {"C07": "pure numerical agreement between floating-point solutions of different ODE systems: no discrete state, history or finite oracle a TLA+ specification could enumerate (DESIGN.md §7)"}
